@@ -611,23 +611,66 @@ def check_direction(ctx) -> None:
     else:
         ctx.bad("C10.direction", None, "LONG_SHORT_DIRECTION", "the two direction tables are not inverse: a minimisation is written or read as a maximisation", file=unit.rel)
     w = prog.func(MOD, "_model_to_sbml")
-    ws = " ".join(ast.unparse(w.node).split())
-    if "objective.setType(SHORT_LONG_DIRECTION[cobra_model.objective.direction])" in ws:
-        ctx.ok("C10.direction", w, "objective.setType", "the written objective type is the model's direction")
+
+    def _flow(fn: FuncInfo, e: ast.AST, depth: int = 6, seen=None):
+        """(names of tables subscripted, attribute names read, methods called) on the def-use paths into ``e``."""
+        tables, attrs, calls = set(), set(), set()
+        seen = seen if seen is not None else set()
+        if depth < 0 or id(e) in seen:
+            return tables, attrs, calls
+        seen.add(id(e))
+        for n in ast.walk(e):
+            if isinstance(n, ast.Subscript) and isinstance(n.value, ast.Name):
+                tables.add(n.value.id)
+            if isinstance(n, ast.Attribute):
+                attrs.add(n.attr)
+            if isinstance(n, ast.Call):
+                calls.add(n.func.attr if isinstance(n.func, ast.Attribute) else norm(n.func))
+            if isinstance(n, ast.Name) and isinstance(n.ctx, ast.Load):
+                _, defs = ctx.inf.lookup_name(fn, n.id)
+                for d in defs or []:
+                    if d.kind in ("assign", "annassign") and isinstance(d.value, ast.AST):
+                        t2, a2, c2 = _flow(fn, d.value, depth - 1, seen)
+                        tables |= t2
+                        attrs |= a2
+                        calls |= c2
+        return tables, attrs, calls
+
+    set_types = [n for n in walk_local(w.node) if isinstance(n, ast.Call) and isinstance(n.func, ast.Attribute) and n.func.attr == "setType" and n.args]
+    if not set_types:
+        ctx.bad("C10.direction", w, w.node, "the objective type is not written")
     else:
-        ctx.bad("C10.direction", w, w.node, "the objective type is not written from the model's objective direction")
+        tables, attrs, _ = _flow(w, set_types[0].args[0])
+        if "SHORT_LONG_DIRECTION" in tables and "direction" in attrs:
+            ctx.ok("C10.direction", w, "objective.setType", "the written objective type is the model's direction, through the short->long table")
+        elif "LONG_SHORT_DIRECTION" in tables or ("direction" not in attrs and not tables):
+            ctx.bad("C10.direction", w, set_types[0], "the objective type is not written from the model's objective direction through the short->long table")
+        else:
+            ctx.note("C10.direction: how the written objective type is computed is not recognised; not read")
     r = prog.func(MOD, "_sbml_to_model")
-    so = [n for n in walk_local(r.node) if isinstance(n, ast.Call) and norm(n.func) == "set_objective"]
+    so = [n for n in walk_local(r.node) if isinstance(n, ast.Call) and norm(n.func).split(".")[-1] == "set_objective"]
     di = [n for n in walk_local(r.node) if isinstance(n, ast.Assign) and norm(n.targets[0]).endswith("objective.direction")]
-    if so and di and di[0].lineno > so[0].lineno and norm(di[0].value) == "obj_direction":
-        ctx.ok("C10.direction", r, di[0], "direction assigned after the objective is set (set_objective keeps the old direction)")
+    if so and di:
+        g = ctx.flow.cfg(r)
+        so_nodes = set()
+        for c_ in so:
+            so_nodes |= {x for x in g.node_containing(c_) if x.kind != "with_exit"}
+        di_nodes = [x for x in g.node_containing(di[0]) if x.kind != "with_exit"]
+        # the direction is assigned after the objective is set: on no path does set_objective follow the assignment
+        after = g.reach(di_nodes, edge_ok=no_exc)
+        if any(x in after for x in so_nodes):
+            ctx.bad("C10.direction", r, di[0], "the objective is set after the direction read from the document has been applied: set_objective builds a new objective with the old direction, the document's direction is lost")
+        else:
+            ctx.ok("C10.direction", r, di[0], "direction assigned after the objective is set (set_objective keeps the old direction)")
+        tables, attrs, calls = _flow(r, di[0].value)
+        if "getType" in calls and "LONG_SHORT_DIRECTION" in tables:
+            ctx.ok("C10.direction", r, "obj.getType()", "direction read from the objective's type through the long->short table")
+        elif "getType" not in calls:
+            ctx.bad("C10.direction", r, di[0], "the direction that is applied does not come from the objective's type in the document")
+        else:
+            ctx.note("C10.direction: how the read direction is converted is not recognised; not read")
     else:
-        ctx.bad("C10.direction", r, r.node, "the objective direction read from the document is not applied after the objective is set")
-    rs = " ".join(ast.unparse(r.node).split())
-    if "obj_direction = LONG_SHORT_DIRECTION[obj.getType()]" in rs:
-        ctx.ok("C10.direction", r, "obj.getType()", "direction read from the active objective's type")
-    else:
-        ctx.bad("C10.direction", r, r.node, "the direction is not read from the active objective's type")
+        ctx.bad("C10.direction", r, r.node, "the objective direction read from the document is not applied to the model (after the objective is set)")
 
 
 FIELDS = [
